@@ -80,4 +80,28 @@ PROPS = {
         "hand_modelled": ['src/traits/elgamal.rs, src/elgamal_*.rs, PublicKey::encrypt_key_el_gamal* (coq/Model/Protocols.v, Api.v); merlin transcript as the oracle fs'],
         "assumptions": ['reduction form: a modified tuple verifies only at a Fiat-Shamir collision'],
     },
+    "C15": {
+        "rule": "correspondence: generated cases through the hooked library and the extracted model (valid encodings from independent reference encoders; every truncation, extensions, invalid points at every point position, bit flips, random bytes; degenerate payload sizes), distinct = distinct case lines; search: un-hooked API incl. serde_json forms against the property's expectations, distinct = distinct (class, input) pairs",
+        "trusted_base": [],
+        "hand_modelled": ["serde_bare layouts of all data types as the derive macros produce them and the hand-written From/TryFrom byte conversions (coq/Model/Codec.v); serde_json forms are NOT modelled in Coq (search only); curve crates' own Serialize/Deserialize and checked point decoding are oracles"],
+        "assumptions": ['OracleLaws: dec (enc p) = Some p, fixed encoding lengths, unrepr (repr a) = Some a, sdec (ser a) = Some a', 'JSON (human-readable) forms are covered by the search harness only'],
+    },
+    "C16": {
+        "rule": "correspondence: generated cases through the hooked library and the extracted model (valid encodings from independent reference encoders; every truncation, extensions, invalid points at every point position, bit flips, random bytes; degenerate payload sizes), distinct = distinct case lines; search: un-hooked API incl. serde_json forms against the property's expectations, distinct = distinct (class, input) pairs",
+        "trusted_base": [],
+        "hand_modelled": ["serde_bare layouts of all data types as the derive macros produce them and the hand-written From/TryFrom byte conversions (coq/Model/Codec.v); serde_json forms are NOT modelled in Coq (search only); curve crates' own Serialize/Deserialize and checked point decoding are oracles"],
+        "assumptions": ["'every returned point is a valid subgroup point' holds by construction in the dlog model (a point value exists only if the checked decoder accepted its bytes); the correspondence run feeds off-subgroup / off-curve / bad-flag encodings at every point position and requires the implementation to reject exactly what the model's checked decoder rejects"],
+    },
+    "C17": {
+        "rule": "correspondence: generated cases through the hooked library and the extracted model (valid encodings from independent reference encoders; every truncation, extensions, invalid points at every point position, bit flips, random bytes; degenerate payload sizes), distinct = distinct case lines; search: un-hooked API incl. serde_json forms against the property's expectations, distinct = distinct (class, input) pairs",
+        "trusted_base": [],
+        "hand_modelled": ["serde_bare layouts of all data types as the derive macros produce them and the hand-written From/TryFrom byte conversions (coq/Model/Codec.v); serde_json forms are NOT modelled in Coq (search only); curve crates' own Serialize/Deserialize and checked point decoding are oracles", 'all consuming entry points (coq/Model)'],
+        "assumptions": ['oracle side conditions the code itself asserts in debug builds: hash points are not the identity; a keystream of >= 32 bytes is not all zero; hash_to_scalar output non-zero (otherwise the HKDF retry loop never ends: unreachable without a SHA-256 preimage)', 'panics inside dependencies are covered by the search harness only'],
+    },
+    "C18": {
+        "rule": 'correspondence: seal/open/prove/verify cases of all four constructions and valid encodings of every type, byte for byte; search: independent reference implementation opens what the library seals and vice versa; golden corpus of the pinned release',
+        "trusted_base": [],
+        "hand_modelled": ['all own-protocol constructions (coq/Model/Protocols.v) and layouts (coq/Model/Codec.v)'],
+        "assumptions": ['the pinning theorems are about the model; the model is tied to the code by the byte-exact correspondence run, the code to the documented constructions by the independent reference implementation in harness/blsdiff/src/search_enc.rs and by the golden corpus of the pinned release'],
+    },
 }
